@@ -366,6 +366,35 @@ writer loads `running = false` and leaves (2), Stop returns (3), the producer ma
 def swappedSched : List (Nat × Nat) :=
   rep 0 10 ++ rep 2 2 ++ rep 0 2 ++ rep 1 4 ++ rep 2 2 ++ rep 1 3 ++ rep 0 3
 
+/-! ### The time-out alternative of `collectValues` is load-bearing (variant of seeded change r6-3) -/
+
+/-- The writer whose `collectValues` has no time-out alternative (a nil timer channel: "time-out disabled") … -/
+def stepWriterNoTimer (s : St) : List St :=
+  match s.wpc with
+  | .sel => recvStep s ++ (if s.flushCh then [{ s with flushCh := false, fl := true, wpc := .fsel }] else [])
+  | _ => stepWriter s
+
+/-- … and the `StopBatchWriter` that wakes the writer with a flush request right after clearing `running`. -/
+def stepStopWake (s : St) (id : Nat) (pc : SPc) : List (St × Thread) :=
+  match pc with
+  | .store => [({ s with running := false, stopped := true, flushCh := true }, .stopper id .wait)]
+  | _ => stepStop s id pc
+
+def stepNoTimer (s : St) : Thread → List (St × Thread)
+  | .writer => (stepWriterNoTimer s).map (fun s' => (s', .writer))
+  | .stopper id pc => stepStopWake s id pc
+  | t => step s t
+
+def sysNoTimer : Sys St Thread := ⟨stepNoTimer⟩
+
+/-- producer up to the yield point (12), Stop clears `running`, leaves its wake-up flush and waits (4), the writer
+starts, finds the counter at 1, takes the flush request, commits the empty batch and comes back to its select (8),
+the producer marks, sends and returns (3), the writer receives, resets, decrements, writes (4) — batch size 2: the
+batch stays open — and waits in a select that nothing will ever wake. -/
+def noTimerSched : List (Nat × Nat) := rep 0 12 ++ rep 1 4 ++ rep 2 8 ++ rep 0 3 ++ rep 2 4
+
+def noTimerCfg : Cfg St Thread := runSched sysNoTimer (initSt 1 2, witnessThreads 1 (fun _ => 0)) noTimerSched
+
 /-! ### Flush scenarios (forced on the real code with the first object's `BatchWrite` held on a channel)
 
 `runThread` lets one thread run on its own: at every step `choice` picks the successor; it stops when `stop`
